@@ -62,6 +62,8 @@ def cells(tier, seed):
     for q, post in itertools.product([1, 2], ["default", "fpv"]):
         # KISS-GP with a fixed per-point noise; a model batch of shape (1, 2); inputs shared by a batch of models (n x d inputs, b x n targets)
         out.append({"fam": "fixednoise_kiss", "mb": [], "fbp": "none", "q": q, "pre": "default", "post": post, "depth": 2})
+        # (not explored: shared training inputs AND un-batched fantasy inputs with b x q targets -- get_fantasy_model documents b x q targets
+        #  on un-batched inputs as "b fantasies", so for that layout the call is ambiguous and not a "supported combination")
         for fbp in ("none", "per", "shared"):
             out.append({"fam": "exact", "mb": [1, 2], "fbp": fbp, "q": q, "pre": "default", "post": post, "depth": 2})
             out.append({"fam": "exact", "mb": [2], "fbp": fbp, "q": q, "pre": "default", "post": post, "depth": 2, "trainx": "shared"})
